@@ -1,3 +1,288 @@
 package props
 
-func runThorough(e *Env, f checkFn) {}
+import (
+	"encoding/json"
+	"fmt"
+	"os"
+	"os/exec"
+	"path/filepath"
+	"sort"
+	"strings"
+	"sync"
+
+	"golang.org/x/tools/go/ssa"
+
+	"wpverif/internal/load"
+)
+
+// runThorough adds, to the quick tier's obligations: (a) the same rules on a
+// GOARCH=386 load (32-bit int changes which conversions and bounds are safe);
+// (b) the same rules with every reachability scope computed on the coarser CHA
+// call graph; (c) informational inventories; (d) the sensitivity self-test:
+// every seeded breakage of this property must make the quick check fire.
+func runThorough(e *Env, f checkFn) {
+	base := len(e.R.Obls)
+	tag := func(from int, cfg string) int {
+		for _, o := range e.R.Obls[from:] {
+			if o.Config == "" {
+				o.Config = cfg
+			} else {
+				o.Config += " " + cfg
+			}
+		}
+		return len(e.R.Obls)
+	}
+	saveFloors := e.R.Floors
+	// (a) 386
+	if p386, err := load.Load(e.Repo, "386"); err != nil {
+		e.R.Undecided("LOAD", "load-GOARCH=386", "-", err.Error())
+	} else {
+		e2 := *e
+		e2.P = p386
+		e.R.Floors = map[string][2]int{}
+		F0(&e2)
+		f(&e2)
+		base = tag(base, "GOARCH=386")
+		e.R.Counts["functions_386"] = len(p386.Funcs)
+	}
+	// (b) CHA scopes
+	e.P.UseCHA = true
+	e.R.Floors = map[string][2]int{}
+	f(e)
+	e.P.UseCHA = false
+	tag(base, "callgraph=CHA")
+	e.R.Floors = saveFloors
+	// (c) inventories
+	if e.R.Prop == "C10" {
+		implicitPanicInventory(e)
+	}
+	// (d) self-test
+	selfTest(e)
+}
+
+// implicitPanicInventory counts the instructions that can panic implicitly in
+// the parser scope (informational; the tainted ones are E6 obligations).
+func implicitPanicInventory(e *Env) {
+	scope := parserScope(e, parserEntries)
+	inv := map[string]int{}
+	for fn := range scope {
+		for _, b := range fn.Blocks {
+			for _, in := range b.Instrs {
+				switch x := in.(type) {
+				case *ssa.IndexAddr, *ssa.Index:
+					inv["index"]++
+				case *ssa.Slice:
+					inv["slice"]++
+				case *ssa.TypeAssert:
+					if !x.CommaOk {
+						inv["type assertion without comma-ok"]++
+					}
+				case *ssa.BinOp:
+					if x.Op.String() == "/" || x.Op.String() == "%" {
+						if _, isConst := x.Y.(*ssa.Const); !isConst {
+							inv["division by a non-constant"]++
+						}
+					}
+				case *ssa.MapUpdate:
+					inv["map update"]++
+				}
+			}
+		}
+	}
+	e.R.Extra["implicit_panic_inventory"] = inv
+}
+
+type mutant struct {
+	ID     string   `json:"id"`
+	Props  []string `json:"props"`
+	Expect []string `json:"expect"`
+	What   string   `json:"what"`
+	Edits  []struct {
+		File string `json:"file"`
+		Old  string `json:"old"`
+		New  string `json:"new"`
+	} `json:"edits"`
+	Patch string `json:"-"` // path of a unified diff (seeded by an independent agent)
+}
+
+func loadMutants(verif, prop string) []mutant {
+	var out []mutant
+	if b, err := os.ReadFile(filepath.Join(verif, "mutants", "mutants.json")); err == nil {
+		var all []mutant
+		if json.Unmarshal(b, &all) == nil {
+			for _, m := range all {
+				for _, p := range m.Props {
+					if p == prop {
+						out = append(out, m)
+					}
+				}
+			}
+		}
+	}
+	// seeded/<id>/meta.json {"property": "...", "detected_by": [...]} + patch.diff
+	dirs, _ := filepath.Glob(filepath.Join(verif, "seeded", "*", "meta.json"))
+	sort.Strings(dirs)
+	for _, mj := range dirs {
+		b, err := os.ReadFile(mj)
+		if err != nil {
+			continue
+		}
+		var meta struct {
+			ID         string   `json:"id"`
+			Property   string   `json:"property"`
+			DetectedBy []string `json:"detected_by"`
+			Expect     []string `json:"expect"`
+		}
+		if json.Unmarshal(b, &meta) != nil {
+			continue
+		}
+		for _, p := range meta.DetectedBy {
+			if p == prop {
+				out = append(out, mutant{ID: "seeded-" + meta.ID, Props: []string{prop}, Expect: meta.Expect, Patch: filepath.Join(filepath.Dir(mj), "patch.diff")})
+			}
+		}
+	}
+	return out
+}
+
+func copyTree(src, dst string) error {
+	return filepath.Walk(src, func(path string, info os.FileInfo, err error) error {
+		if err != nil {
+			return err
+		}
+		rel, _ := filepath.Rel(src, path)
+		if rel == ".git" || strings.HasPrefix(rel, ".git"+string(filepath.Separator)) {
+			if info.IsDir() {
+				return filepath.SkipDir
+			}
+			return nil
+		}
+		target := filepath.Join(dst, rel)
+		if info.IsDir() {
+			return os.MkdirAll(target, 0o755)
+		}
+		if !info.Mode().IsRegular() {
+			return nil
+		}
+		b, err := os.ReadFile(path)
+		if err != nil {
+			return err
+		}
+		return os.WriteFile(target, b, info.Mode())
+	})
+}
+
+func goEnv() []string {
+	return append(os.Environ(), "GOFLAGS=-mod=mod", "GOPROXY=off", "GOSUMDB=off", "GOTOOLCHAIN=local", "GOWORK=off")
+}
+
+// selfTest applies each breakage to a scratch copy of the current tree and
+// requires the quick check to fire and to name the broken instance.
+func selfTest(e *Env) {
+	ms := loadMutants(e.Verif, e.R.Prop)
+	self, err := os.Executable()
+	if err != nil || len(ms) == 0 {
+		e.R.Extra["selftest"] = "no seeded breakages for this property"
+		return
+	}
+	type res struct{ id, status, detail string }
+	results := make([]res, len(ms))
+	sem := make(chan struct{}, 4)
+	var wg sync.WaitGroup
+	for i, m := range ms {
+		wg.Add(1)
+		go func(i int, m mutant) {
+			defer wg.Done()
+			sem <- struct{}{}
+			defer func() { <-sem }()
+			tmp, err := os.MkdirTemp("", "wpverif-"+m.ID+"-")
+			if err != nil {
+				results[i] = res{m.ID, "SKIP", err.Error()}
+				return
+			}
+			defer os.RemoveAll(tmp)
+			scratch := filepath.Join(tmp, "repo")
+			if err := copyTree(e.Repo, scratch); err != nil {
+				results[i] = res{m.ID, "SKIP", err.Error()}
+				return
+			}
+			if m.Patch != "" {
+				c := exec.Command("patch", "-p1", "-s", "-i", m.Patch)
+				c.Dir = scratch
+				if out, err := c.CombinedOutput(); err != nil {
+					results[i] = res{m.ID, "SKIP", "patch no longer applies: " + strings.TrimSpace(string(out))}
+					return
+				}
+			}
+			for _, ed := range m.Edits {
+				p := filepath.Join(scratch, ed.File)
+				b, err := os.ReadFile(p)
+				if err != nil || !strings.Contains(string(b), ed.Old) {
+					results[i] = res{m.ID, "SKIP", "edit no longer applies to " + ed.File}
+					return
+				}
+				os.WriteFile(p, []byte(strings.Replace(string(b), ed.Old, ed.New, 1)), 0o644)
+			}
+			bc := exec.Command("go", "build", "./...")
+			bc.Dir = scratch
+			bc.Env = goEnv()
+			if out, err := bc.CombinedOutput(); err != nil {
+				results[i] = res{m.ID, "SKIP", "mutant does not compile on the current tree: " + lastLine(string(out))}
+				return
+			}
+			vdir := filepath.Join(tmp, "verif")
+			os.MkdirAll(vdir, 0o755)
+			if kf, err := os.ReadFile(filepath.Join(e.Verif, "known_findings.txt")); err == nil {
+				os.WriteFile(filepath.Join(vdir, "known_findings.txt"), kf, 0o644)
+			}
+			c := exec.Command(self, "-prop", e.R.Prop, "-repo", scratch, "-verif", vdir, "-tier", "quick")
+			c.Env = goEnv()
+			out, _ := c.CombinedOutput()
+			code := c.ProcessState.ExitCode()
+			fired := code == 1 && strings.Contains(string(out), "VIOLATION property="+e.R.Prop)
+			named := true
+			if len(m.Props) > 0 && m.Props[0] == e.R.Prop {
+				for _, k := range m.Expect {
+					if !strings.Contains(string(out), k) {
+						named = false
+					}
+				}
+			}
+			switch {
+			case !fired:
+				results[i] = res{m.ID, "MISSED", fmt.Sprintf("the check stayed silent (exit %d)", code)}
+			case !named:
+				results[i] = res{m.ID, "WRONGKEY", "fired, but not on " + strings.Join(m.Expect, ",")}
+			default:
+				results[i] = res{m.ID, "DETECTED", ""}
+			}
+		}(i, m)
+	}
+	wg.Wait()
+	var summary []string
+	det := 0
+	for _, r := range results {
+		s := r.id + ": " + r.status
+		if r.detail != "" {
+			s += " (" + r.detail + ")"
+		}
+		summary = append(summary, s)
+		switch r.status {
+		case "DETECTED":
+			det++
+		case "MISSED", "WRONGKEY":
+			e.R.SelfTest = append(e.R.SelfTest, s)
+		}
+	}
+	e.R.Extra["selftest"] = summary
+	e.R.Counts["selftest_mutants"] = len(results)
+	e.R.Counts["selftest_detected"] = det
+}
+
+func lastLine(s string) string {
+	s = strings.TrimSpace(s)
+	if i := strings.LastIndex(s, "\n"); i >= 0 {
+		return s[i+1:]
+	}
+	return s
+}
